@@ -163,6 +163,10 @@ class ScriptedPort:
                 self.hand = ("line", "Hello, I am not the board you are looking for")
             elif d == "ebb_old":
                 self.hand = ("line", VERSION_LINE % "2.8.1")
+            elif d == "ebb_noversion":
+                self.hand = ("line", "EBB")                                   # the letters, but no 'Firmware Version a.b.c' (e.g. a line cut short)
+            elif d == "ebb_in_text":
+                self.hand = ("line", "WEBBox controller rev 7")              # a foreign device whose banner happens to contain the letters
             else:
                 self.hand = ("line", VERSION_LINE % "3.0.3")
             return len(raw)
@@ -431,7 +435,7 @@ def random_call(rng, alphabet):
     if m == "query":
         return m, [], rng.choice(["QX", "V", "Q,1", "QX", "QT"])
     if m == "write_nickname":
-        return m, [], rng.choice(["Axi", "East Wing", "", "N%d" % R(0, 99)])
+        return m, [], rng.choice(["Axi", "East Wing", "", "N%d" % R(0, 99), "Jerry", "BERRY 2", "okay", "Q7"])
     if m == "var_write":
         return m, [R(0, 255), R(0, 31)], ""
     if m == "var_read":
